@@ -60,11 +60,27 @@ pub struct Ctl {
     /// endless sources: hard cap of batches per stream (progress-based bound)
     pub endless_cap: AtomicU64,
     pub cap_hit: AtomicBool,
+    /// partial-consumer driver: faults switched off (reference repetition)
+    pub fault_disabled: AtomicBool,
+    /// partial-consumer driver: the faulty stream parks right before its fault position until the gate opens
+    pub gate_on: AtomicBool,
+    pub gate_open: AtomicBool,
+    pub gate_wakers: parking_lot::Mutex<Vec<std::task::Waker>>,
     /// pending-fuzz: every n-th poll returns Pending after waking itself (0 = off)
     pub pending_every: u64,
 }
 
 static CURRENT: parking_lot::RwLock<Option<Arc<Ctl>>> = parking_lot::RwLock::new(None);
+
+impl Ctl {
+    pub fn open_gate(&self) {
+        let mut w = self.gate_wakers.lock();
+        self.gate_open.store(true, AO::SeqCst);
+        for x in w.drain(..) {
+            x.wake();
+        }
+    }
+}
 
 pub fn set_current(c: Option<Arc<Ctl>>) {
     *CURRENT.write() = c;
@@ -201,7 +217,23 @@ impl Stream for FaultyStream {
         if self.failed {
             return Poll::Ready(None);
         }
-        let f = self.ctl.fault.clone();
+        let mut f = self.ctl.fault.clone();
+        if self.ctl.fault_disabled.load(AO::SeqCst) {
+            f.kind = "none".into();
+        }
+        if self.ctl.gate_on.load(AO::SeqCst)
+            && !self.ctl.gate_open.load(AO::SeqCst)
+            && (f.kind == "src_err" || f.kind == "src_panic")
+            && f.table == self.table
+            && f.part == self.part
+            && f.k == self.pos
+        {
+            let mut w = self.ctl.gate_wakers.lock();
+            if !self.ctl.gate_open.load(AO::SeqCst) {
+                w.push(cx.waker().clone());
+                return Poll::Pending;
+            }
+        }
         if f.kind == "src_swallow" && f.table == self.table && f.part == self.part && f.k == self.pos {
             // self-test of the oracle: behave like an operator that turns the input error into end-of-stream
             self.ctl.fired.store(true, AO::SeqCst);
